@@ -756,7 +756,26 @@ def acoshArg (x : TwoFloat) : TwoFloat :=
   arithmetic.impl_Add_TwoFloat_for_TwoFloat.add x (TwoFloat.sqrt (arithmetic.impl_Sub_f64_for_TwoFloat.sub
     (arithmetic.impl_Mul_TwoFloat_for_TwoFloat.mul x x) (f64lit 0x3ff0000000000000)))
 
-theorem acosh_unfold (x : TwoFloat) : TwoFloat.acosh x = TwoFloat.ln (acoshArg x) := rfl
+/-- the domain test `self < 1.0` of `acosh` is false for a valid `x ≥ 1` -/
+theorem acosh_test_false {x : TwoFloat} (hv : x.Valid) (h : 1 ≤ rv x) :
+    ROrd.isLt (base.impl_PartialOrd_f64_for_TwoFloat.partial_cmp x (f64lit 0x3ff0000000000000)) = false := by
+  rw [Bool.eq_false_iff]
+  intro hlt
+  have h1 := (C06.lt_f64_exact hv C01d.one_WF C01d.one_isVal.1).1 hlt
+  rw [C01d.one_isVal.2, C01d.unit_int_eq] at h1
+  have h2 : (x.V : ℝ) < 2 ^ 1074 := by exact_mod_cast h1
+  have h3 : rv x < 1 := by
+    unfold rv
+    rw [div_lt_one (by positivity)]
+    exact h2
+  linarith
+
+/-- for a valid `x ≥ 1` `acosh` is `ln(x + sqrt(x² − 1))` -/
+theorem acosh_unfold (x : TwoFloat) (hv : x.Valid) (h : 1 ≤ rv x) :
+    TwoFloat.acosh x = TwoFloat.ln (acoshArg x) := by
+  unfold TwoFloat.acosh
+  rw [acosh_test_false hv h, if_neg Bool.false_ne_true]
+  rfl
 
 /-- **the core of `acosh`** on a valid pair `1 + 2^-103 ≤ v ≤ 2^60`: the `sqrt` result is valid and
 `|acosh(x) − A| ≤ 32u²·A + 66u² + 7.2u²/A`, `A = arcosh v` -/
@@ -849,7 +868,7 @@ theorem acosh_bound_sharp (x : TwoFloat) (hv : x.Valid) (hw : x.WF) (h1 : 1 + 1 
     |val (TwoFloat.acosh x) - Real.arcosh (val x)|
       ≤ 1 / 2 ^ 101 * Real.arcosh (val x) + 66 / 2 ^ 106 + 72 / 10 / 2 ^ 106 * (Real.arcosh (val x))⁻¹ := by
   obtain ⟨-, hR, hp, hb⟩ := acosh_core (x := x) ⟨hv, hw⟩ h1 h2
-  rw [acosh_unfold]
+  rw [acosh_unfold x hv (le_trans (by norm_num) h1)]
   exact ⟨hR.1, hR.2, hp, hb⟩
 
 /-- **Property C18, accuracy of `acosh`** (PARTIAL: `1 + 2^-103 ≤ x` instead of `1 < x`): for every valid `x` with
